@@ -152,7 +152,8 @@ def run(chk):
         r = enginerun.run_case(case["machine"], case["input"], case["plans"], max_data=case.get("max_data"),
                                max_steps=MAX_STEPS)
         obs = {"errors": list(r.errors), "view": c01.impl_view(r), "reqs": [q for q in r.requests if q["queue"] == "f"],
-               "refusals": r.refusals, "cause_text_decides": r.cause_text_decides}
+               "refusals": r.refusals, "terminal_refusals": r.terminal_refusals,
+               "cause_text_decides": r.cause_text_decides}
         start = len(lines)
         lines.append(c01.model_line(case["machine"], case["input"], r.exec_arn, r.plans.oracle(),
                                     max_data=case.get("max_data")))
@@ -206,7 +207,7 @@ def check_case(chk, case, obs, answers):
         cview["max_data"], cview["small"] = lim, case.get("small")      # a replay re-applies the limit
         chk.dist("smalllimit.cases")
         chk.dist("smalllimit.%s.cases" % case.get("small"))
-        if obs["refusals"] or any(len(json.dumps(reply_doc(case["kind"], case["input"], o))) > lim for o in seq[:len(obs["reqs"])]):
+        if obs["refusals"] or obs["terminal_refusals"] or any(len(json.dumps(reply_doc(case["kind"], case["input"], o))) > lim for o in seq[:len(obs["reqs"])]):
             chk.dist("smalllimit.hit")
     if obs["errors"]:
         chk.report("impl-violates-law", cview, impl={"errors": obs["errors"][:1]}, law="no exception escapes a handler")
